@@ -28,7 +28,17 @@ type vsSink struct {
 	tap   *vsTap
 	enc   *json.Encoder
 	frame int
+	// stopFail: the next StopRecording reports a storage error (the recording is over all the same)
+	stopFail bool
+	stops    int
 }
+
+// vsLis notes the detector's verdict as the processor reports it.
+type vsLis struct{ motion bool }
+
+func (l *vsLis) MotionDetected()   { l.motion = true }
+func (l *vsLis) RecordingStarted() {}
+func (l *vsLis) RecordingEnded()   {}
 
 func (s *vsSink) StartRecording(bg *cptvframe.Frame, th uint16) error {
 	d := s.mp.motionDetector
@@ -44,7 +54,14 @@ func (s *vsSink) StartRecording(bg *cptvframe.Frame, th uint16) error {
 	s.enc.Encode(ev)
 	return nil
 }
-func (s *vsSink) StopRecording() error                { return nil }
+func (s *vsSink) StopRecording() error {
+	s.stops++
+	if s.stopFail {
+		s.stopFail = false
+		return errors.New("injected stop failure")
+	}
+	return nil
+}
 func (s *vsSink) WriteFrame(f *cptvframe.Frame) error { return nil }
 func (s *vsSink) CheckCanRecord() error               { return nil }
 
@@ -75,7 +92,17 @@ type vsScript struct {
 		FrameMs int `json:"frame_ms"`
 	} `json:"throttle"`
 	Steps []vDetStep `json:"steps"`
+	// Kind "history": a second processor is fed pix2 in lock-step (streams equal from some FFC period / reset on)
+	Kind string `json:"kind"`
 }
+
+// vsQuiet is the storage of the twin processor: it accepts everything and records nothing.
+type vsQuiet struct{}
+
+func (vsQuiet) StartRecording(bg *cptvframe.Frame, th uint16) error { return nil }
+func (vsQuiet) StopRecording() error                                { return nil }
+func (vsQuiet) WriteFrame(f *cptvframe.Frame) error                 { return nil }
+func (vsQuiet) CheckCanRecord() error                               { return nil }
 
 // TestVerifStartArgs: real detector + real MotionProcessor (+ real ThrottledRecorder with a manual clock): the
 // background and threshold that reach storage with every (re)started file.
@@ -105,17 +132,24 @@ func TestVerifStartArgs(t *testing.T) {
 		w, _ := window.New("12:00", "12:00", 0, 0)
 		rconf := &recorder.RecorderConfig{MinSecs: sc.MinSecs, MaxSecs: sc.MaxSecs, PreviewSecs: sc.PrevSecs, Window: *w}
 		var cur *vDetStep
-		parser := func(raw []byte, out *cptvframe.Frame, edge int) error {
-			if cur == nil {
-				return errors.New("no frame")
-			}
-			for y := range cur.Pix {
-				for x := range cur.Pix[y] {
-					out.Pix[y][x] = uint16(cur.Pix[y][x])
+		mkParser := func(second bool) func(raw []byte, out *cptvframe.Frame, edge int) error {
+			return func(raw []byte, out *cptvframe.Frame, edge int) error {
+				if cur == nil {
+					return errors.New("no frame")
 				}
+				px := cur.Pix
+				if second {
+					px = cur.Pix2
+				}
+				for y := range px {
+					for x := range px[y] {
+						out.Pix[y][x] = uint16(px[y][x])
+					}
+				}
+				return nil
 			}
-			return nil
 		}
+		parser := mkParser(false)
 		sink := &vsSink{enc: enc}
 		tap := &vsTap{}
 		sink.tap = tap
@@ -131,8 +165,15 @@ func TestVerifStartArgs(t *testing.T) {
 			chain = throttle.NewThrottledRecorderWithClock(sink, tc, minLen, nil, clk, cam)
 		}
 		tap.next = chain
-		mp := NewMotionProcessor(parser, &mconf, rconf, &config.Location{}, nil, tap, cam, nil, new(recorder.NoWriteRecorder))
+		lis := &vsLis{}
+		mp := NewMotionProcessor(parser, &mconf, rconf, &config.Location{}, lis, tap, cam, nil, new(recorder.NoWriteRecorder))
 		sink.mp = mp
+		paired := sc.Kind != ""
+		var mp2 *MotionProcessor
+		lis2 := &vsLis{}
+		if paired {
+			mp2 = NewMotionProcessor(mkParser(true), &mconf, rconf, &config.Location{}, lis2, vsQuiet{}, cam, nil, new(recorder.NoWriteRecorder))
+		}
 		enc.Encode(map[string]interface{}{"ev": "dcfg", "script": si, "w": c.W, "h": c.H, "edge": c.Edge, "T": c.T,
 			"delta": c.Delta, "cnt": c.Cnt, "gap": c.Gap, "one": c.One, "warmer": c.Warmer, "dyn": c.Dyn,
 			"tmin": c.Tmin, "tmax": c.Tmax, "preview": sc.PrevSecs * sc.Fps})
@@ -140,7 +181,14 @@ func TestVerifStartArgs(t *testing.T) {
 		for i := range sc.Steps {
 			st := &sc.Steps[i]
 			if st.A == "reset" {
+				sink.stopFail = st.StopFail
+				n0 := sink.stops
 				mp.Reset(cam)
+				if paired {
+					mp2.Reset(cam)
+				}
+				sink.stopFail = false
+				enc.Encode(map[string]interface{}{"ev": "dreset", "while_recording": sink.stops > n0, "stop_failed": st.StopFail && sink.stops > n0})
 				continue
 			}
 			timeOn += time.Second
@@ -149,7 +197,27 @@ func TestVerifStartArgs(t *testing.T) {
 			// the parser above fills pixels; telemetry is set through a wrapper frame status
 			f := mp.frameLoop.Current()
 			f.Status = cptvframe.Telemetry{TimeOn: timeOn, LastFFCTime: timeOn - time.Duration(st.FfcAge)*time.Millisecond}
+			lis.motion = false
 			mp.Process(nil)
+			// the detector as the processor drives it (same event shape as TestVerifDetector)
+			d := mp.motionDetector
+			ev := map[string]interface{}{"ev": "dframe", "kind": sc.Kind, "pix": st.Pix, "aff": st.FfcAge < 10000, "motion": lis.motion,
+				"thresh": int(d.tempThresh)}
+			if c.Dyn {
+				ev["bg"] = vPix(d.background)
+			}
+			if paired {
+				f2 := mp2.frameLoop.Current()
+				f2.Status = f.Status
+				lis2.motion = false
+				mp2.Process(nil)
+				d2 := mp2.motionDetector
+				ev["pix2"], ev["motion2"], ev["thresh2"] = st.Pix2, lis2.motion, int(d2.tempThresh)
+				if c.Dyn {
+					ev["bg2"] = vPix(d2.background)
+				}
+			}
+			enc.Encode(ev)
 			if sc.Throttle != nil {
 				clk.now = clk.now.Add(time.Duration(sc.Throttle.FrameMs) * time.Millisecond)
 			}
